@@ -698,7 +698,12 @@ func (bc *BlockChain) verifyAllSideChainBlocks(chain types.Blocks) (err error) {
 
 		//verify block.
 		// Notice: Here we can't use bc.Validator().ValidateBody(b), because ValidateBody will check if the parent block is has state in canonical chain.
-		// just to process the transactions and then validate the result
+		// just to process the transactions and then validate the result.
+		// The part of ValidateBody that does not depend on the parent's state must still be done:
+		// the body has to be the one the header commits to.
+		if hash := types.DeriveSha(b.Transactions()); hash != b.Header().TxHash {
+			return fmt.Errorf("transaction root hash mismatch: have %x, want %x", hash, b.Header().TxHash)
+		}
 		result, err := bc.processor.Process(yp, b, stateDb, bc.vmConfig, bc.detailDb.NewRecorder())
 		if err != nil {
 			logging.Error("verifyAllSideChainBlocks Process failed.", "number", b.NumberU64())
